@@ -544,7 +544,7 @@ def c_slice_iter(eng, st, fr, f, args, site):
     if vw is None:
         return None
     arr = vw.get("arr")
-    if arr is not None and len(arr.elems) <= 64 and "iter_mut" not in f["path"] and "mut" not in f["path"].split("IntoIterator")[-1] and not all(isinstance(e, Int) and e.w == 8 for e in arr.elems):
+    if arr is not None and len(arr.elems) <= 64 and "iter_mut" not in f["path"] and "mut" not in f["path"].split("IntoIterator")[-1] and (not all(isinstance(e, Int) and e.w == 8 for e in arr.elems) or (len(arr.elems) <= 8 and all(isinstance(e, Int) and e.lin.is_const() for e in arr.elems))):
         # a small array whose elements are known (a constant table): the iterator knows its elements and position
         k = eng._hv()
         refs = []
@@ -931,7 +931,7 @@ def _mk_known(eng, it, elems, rt):
     return Cont("iter:arr", "arrit#%d" % eng._hv(), Lin.const(len(elems)), None, (("elems", tuple(elems), 0),), rt if rt is not None else it.ty)
 
 
-@contract(r"(^|[ :<])(std|core)::iter::Iterator::(filter|map|count|fold|sum|for_each|rev|copied|cloned|enumerate|zip)(::<.*>)?$|^<(std|core)::iter::(Filter|Map|Rev|Copied|Cloned|Enumerate|Zip)<.*> as (std|core)::iter::Iterator>::(count|fold|sum|for_each)$")
+@contract(r"(^|[ :<])(std|core)::iter::Iterator::(filter|map|count|fold|sum|for_each|rev|copied|cloned|enumerate|zip|flatten)(::<.*>)?$|^<(std|core)::iter::(Filter|Map|Rev|Copied|Cloned|Enumerate|Zip|Flatten)<.*> as (std|core)::iter::Iterator>::(count|fold|sum|for_each)$")
 def c_known_iter_adaptors(eng, st, fr, f, args, site):
     """Iterator adaptors / consumers over an iterator whose elements are known (an array literal, a constant table):
     evaluated eagerly, element by element, with the closures analysed on each element."""
@@ -978,6 +978,27 @@ def c_known_iter_adaptors(eng, st, fr, f, args, site):
         for v in vals:
             tot = tot.add(v.lin)
         return [(st, Int(tot, None, ii[0], ii[1], frozenset()))]
+    if op == "flatten":
+        # known elements that are Options: the present ones, in order (decided per element like a branch on it)
+        live = [(st, [])]
+        for e in elems:
+            nxt = []
+            for s0, kept in live:
+                ev, _ = as_enum(eng, s0, e)
+                if ev is None or not str(eng.T.t(ev.ty).get("path", "")).endswith("option::Option"):
+                    return None
+                for s2, vi, fs in split_variants(eng, s0, ev, None):
+                    if len(ev.variants) > 1:
+                        ki = ("variant", ev.name, eng.T.variant_name(ev.ty, vi))
+                        if ki not in s2.key and (eng._want_partition(fr, site.get("block"), "variant", ev.name) or eng._key_adt(ev)):
+                            s2.key = s2.key + (ki,)
+                        elif ki not in s2.key:
+                            s2.key = s2.key + (("flt", it.id, len(kept), vi == 1),)
+                    nxt.append((s2, kept + [fs[0]] if vi == 1 else kept))
+            live = nxt
+            if len(live) > 64:
+                return None
+        return [(s0, _mk_known(eng, it, kept, rt)) for s0, kept in live]
     if len(args) < 2:
         return None
     if op == "filter":
